@@ -38,6 +38,9 @@ CLAIMED = {
  "C11": ("bounded-exhaustive input enumeration of 2- and 3-table joins on the real SQL path x statistics states x every plan reachable through the optimizer's tie-breaks (plan-choice hook), against a naive nested-loop evaluation",
          "All pairs of small table contents (0-2, thorough 0-3 rows over a 3-value join key domain: duplicates, missing keys, empty tables), every single-equality ON over the 4 column pairs (also written in WHERE), no / 1 / 2-leaf conjunctive filters over either table, several select lists, cross joins, 3-table chains; statistics never updated / current / stale; every distinct plan found by breadth-first enumeration of tie-break deviations (hash join both orientations, index join, nested loop, with/without residual selection) is executed and compared with the naive evaluation.",
          "README's supported join form; plan enumeration is budgeted (48 planning runs per query, breadth-first: all single deviations from the canonical plan are always covered); NULL keys not reachable through SQL", "§4 C11"),
+ "C12": ("preemption-bounded schedule enumeration of client goroutines calling the real ExecuteSQL, with the RequestManager loop, worker goroutines, channels and mutexes under a controlled scheduler; per-schedule linearizability check against a sequential table model",
+         "2-3 client goroutines x 1-2 calls (reads and multi-row updates over overlapping key ranges of a 4-row table, unique written values); every schedule with <=1 (thorough <=2) preemptions and <=2 non-preemptive deviations at lock/latch/channel granularity is executed on the real code; each call must return exactly once with a result of its own statement, the history must be linearizable respecting real time, the final table must match, no deadlock and no livelock.",
+         "go/chan constructs of lib/samehada rewritten mechanically to scheduler calls at check time; deviation bounds as stated (retry loops make the unbounded space cyclic); atomics are not scheduling points", "§4 C12"),
  "C13": ("explicit-state search over all new/fetch/write/unpin/flush/deallocate sequences on the real BufferPoolManager (pool sizes 1-3, in-memory and file disk manager, 2 users), merged on the pool's private state",
          "Every operation sequence up to the depth bound is executed on the real buffer pool; after every call the page table, frames, pin counts, resident bytes and on-disk bytes (read back through the disk manager) are compared with a map model page->latest bytes: fetch returns the latest bytes, pinned pages keep their frame, frames are never shared, new ids are never live ids.",
          "API contract restrictions listed in the evidence file (creator initialises and unpins dirty; deallocation only in the two call patterns the code base uses); single-threaded; depth bound", "§4 C13"),
@@ -50,6 +53,9 @@ CLAIMED = {
  "C16": ("explicit-state search of the complete reachable state space of the real LockManager (3 txns x 2 rows) + exhaustive schedule enumeration of 2-3 real goroutines under a controlled scheduler",
          "Every reachable state of the real lock manager for 3 transactions x 2 rows is visited with every request from it and compared with a holder-set model (not depth-bounded: the search stops when no new state appears); every interleaving of 2-3 goroutines x 2 requests is run on the real code and must equal a sequential order of the same calls.",
          "3 txns x 2 rows; transaction end through the real Commit/Abort with empty write sets; LockUpgrade only on rows held shared (caller contract); atomics are not scheduling points", "§4 C16"),
+ "C17": ("explicit-state search over operation sequences on the four real index containers against a sorted multimap + preemption-bounded schedule enumeration of concurrent operations on skip-list/unique/hash indexes",
+         "Sequential: every sequence of <=3 (thorough 4) insert/delete/update operations over 5-6 keys x 3 row ids from empty and pre-filled (node-boundary) seeds, for skip list, unique skip list, B-tree and hash index with integer, float and varchar keys and three node-level patterns; after EVERY operation every key is looked up and every range (incl. open ends) is scanned and compared (contents, order, exactly-once, pins). Concurrent: 2-goroutine scenarios (split, node removal, lookup/range during insert/delete) on skip/unique/hash indexes, every schedule with <=4 (thorough 6) preemptions; results must equal a sequential order of the operations, untouched entries are found by every scanner.",
+         "caller contracts and key-length limits as listed in the evidence file; the B-link tree is driven sequentially only (its spin latches are outside the scheduler)", "§4 C17"),
  "C18": ("exhaustive enumeration of the input domains: all 2^32 integers and all non-NaN float32 bit patterns walked in numeric order (adjacent pairs), all strings over a 6-byte alphabet up to length 4/5 (all pairs), all row ids over byte lanes",
          "The whole finite domain is enumerated on the real exported encode/decode/pack functions (thorough: every int32 and every float32; quick: windows around every byte-lane/sign/exponent boundary plus a stride): round trip, order of adjacent values (total order by transitivity), same-key adjacency (largest-rid entry of a key sorts before smallest-rid entry of the next key), ScanKey window containment, B-tree zero padding.",
          "containers compare encoded keys bytewise; strings without NUL; the B-tree's 6-byte rid squeeze is mirrored here and exercised for real in C17", "§4 C18"),
